@@ -56,6 +56,16 @@ def struct_eq(ev, st, a, b, depth=0):
         a = ev.load(st, a[1])
     while b[0] == "ref":
         b = ev.load(st, b[1])
+    hw = getattr(ev.models, "handwritten_eq", None)
+    if hw:
+        # `==` on a workspace type whose PartialEq is written by hand is that impl, not a field-by-field comparison: a
+        # std / derived comparison that reaches such a value (Option<T>, a field of a derived impl, a slice element) runs it
+        for v in (a, b):
+            ty = v[1] if v[0] == "adt" else (term_type(v) or "")
+            base = adt_base(ty.lstrip("&").replace("mut ", "").strip()) if ty else ""
+            if base in hw:
+                raise Unsupported("comparison of %s values inside a structural (std / derived) `==`: %s has a hand-written PartialEq impl (%s), which the structural model does not follow"
+                                  % (base.split("::")[-1], base, hw[base]))
     if a == b:
         return TRUE
     if a[0] == "int" and b[0] == "int":
@@ -139,11 +149,14 @@ class Models:
         self.prog = prog
         self.table = []
         self.derived_eq = set()
+        self.handwritten_eq = {}
         for f in prog.fns.values():
             imp = f.get("impl") or {}
             if imp.get("trait") == "core::cmp::PartialEq" and f.get("item") in ("eq", "ne"):
                 if imp.get("automatically_derived"):
                     self.derived_eq.add(f["path"])
+                elif imp.get("self_adt"):
+                    self.handwritten_eq[imp["self_adt"]] = f["name"]
         self._register()
 
     def force_model(self, ci):
@@ -215,6 +228,8 @@ class Models:
         R(r"^<T as core::convert::TryInto<U>>::try_into$|^core::array::<impl core::convert::TryFrom<&'a \[T\]> for &'a \[T; N\]>::try_from$", m_try_into, "TryInto/TryFrom: &[T] -> &[T; N] is Ok(the same elements) iff len == N; unsigned ints as TryFrom")
         R(r"impl core::convert::TryFrom<usize> for u(8|16|32)>::try_from$|impl core::convert::TryFrom<u(16|32|64)> for u(8|16|32)>::try_from$", m_try_from, "TryFrom between unsigned ints: Ok(value) iff it fits the target type")
         R(r"^core::iter::traits::iterator::Iterator::enumerate$", lambda ci: ("iter", "enumerate", ci.args[0]), "Iterator::enumerate pairs items with 0,1,2,…")
+        R(r"^core::iter::traits::iterator::Iterator::step_by$", m_step_by, "Iterator::step_by(n) on a RangeFrom with a constant start: start, start+n, start+2n, … (kept symbolic otherwise)")
+        R(r"^core::iter::traits::iterator::Iterator::zip$", lambda ci: ("iter", "zip", ci.args[0], m_into_iter_value(ci, ci.args[1])), "Iterator::zip pairs the k-th items and ends with the shorter side")
         R(r"^core::iter::traits::iterator::Iterator::flat_map$", lambda ci: ("iter", "flat_map", ci.args[0], ci.args[1]), "Iterator::flat_map(f): the items of f(x) for each item x, in order")
         R(r"^core::iter::traits::iterator::Iterator::map$", lambda ci: ("iter", "map", ci.args[0], ci.args[1]), "Iterator::map applies f to each item")
         R(r"^core::iter::sources::once::once$", lambda ci: ("iter", "once", ci.args[0]), "iter::once yields exactly one item")
@@ -237,6 +252,7 @@ class Models:
         R(r"^core::convert::num::<impl core::convert::From<u\d+> for [ui](\d+|size)>::from$", m_widen, "lossless integer widening")
         R(r"^core::convert::num::<impl core::convert::From<bool> for [ui](\d+|size)>::from$", m_widen, "uN::from(bool): 0 or 1")
         R(r"^<&?u8 as core::ops::bit::(Shr|Shl|BitAnd|BitOr|BitXor)<.*>>::\w+$", m_ref_binop, "operators on &u8 forward to the u8 operator")
+        R(r"^<&?u8 as core::ops::arith::(Div|Rem)<.*>>::\w+$", m_ref_divrem, "`/` and `%` on &u8 forward to the u8 operator (a constant non-zero divisor: no panic)")
         R(r"^core::time::Duration::from_millis$", lambda ci: dur(ci.args[0], 1), "Duration::from_millis")
         R(r"^core::time::Duration::from_secs$", lambda ci: dur(ci.args[0], 1000), "Duration::from_secs")
         R(r"^core::time::Duration::from_micros$", lambda ci: dur(ci.args[0], 0.001), "Duration::from_micros")
@@ -254,6 +270,7 @@ class Models:
         R(r"^alloc::vec::from_elem$", lambda ci: ("seq", (("fill_to", ci.args[1], ci.args[0]),)), "vec![x; n]: n copies of x")
         R(r"^<alloc::vec::Vec<T, A> as core::iter::traits::collect::Extend<&'a T>>::extend$|^<alloc::vec::Vec<T, A> as core::iter::traits::collect::Extend<T>>::extend$", m_vec_extend_iter, "Vec::extend with the items of a slice iterator: extend_from_slice")
         R(r"as core::iter::traits::iterator::Iterator>::(try_for_each|try_fold)$|^core::iter::traits::iterator::Iterator::(try_for_each|try_fold)$", m_try_iter, "Iterator::try_fold / try_for_each: the closure on each item in order, stopping at the first Err / None / Break, which is returned")
+        R(r"^core::result::Result::<T, E>::inspect_err$", m_inspect_err, "Result::inspect_err(f): f(&error) on Err, then the value itself unchanged")
         R(r"^core::result::Result::<T, E>::inspect$|^core::option::Option::<T>::inspect$", m_inspect, "Result/Option::inspect(f): f(&value) on Ok / Some, then the value itself unchanged")
         R(r"^core::option::Option::<T>::filter$", m_opt_filter, "Option::filter(p): Some(x) if p(&x) else None")
         R(r"^core::option::Option::<T>::as_ref$", m_opt_as_ref, "Option::as_ref: Some(&x) for Some(x), None for None")
@@ -379,6 +396,9 @@ def m_from_residual(ci):
             if imp.get("trait") == "core::convert::From" and f.get("item") == "from" and strip(imp.get("self_ty", "")) == strip(dst_ty) and [strip(t) for t in imp.get("trait_args", [])] == [strip(src_ty)]:
                 # evaluate the workspace conversion eagerly through a sub-evaluator (loop-free, single path)
                 from mireval import Evaluator
+                why = ev.static_effects(f["path"])
+                if why:
+                    raise Unsupported("the error conversion %s run by `?` has effects (%s)" % (f["name"], why))
                 sub = Evaluator(ev.prog, ev.models, ev.log_on, {}, ev.no_inline)
                 sub.fnrefs = ev.fnrefs
                 paths = [p for p in sub.run_body(f, f["body"], [e]) if p.kind == "return"]
@@ -460,10 +480,10 @@ def m_index(ci):
             lo = i[4][0]
         elif nm == "RangeTo":
             hi = i[4][0]
-        elif nm == "RangeToInclusive" and i[4][0][0] == "int":
-            hi = mk_int(i[4][0][1] + 1, "usize")
-        elif nm == "RangeInclusive" and len(i[4]) >= 2 and i[4][1][0] == "int":
-            lo, hi = i[4][0], mk_int(i[4][1][1] + 1, "usize")
+        elif nm == "RangeToInclusive":
+            hi = mk_int(i[4][0][1] + 1, "usize") if i[4][0][0] == "int" else ("app", "Add", (i[4][0], mk_int(1, "usize")))
+        elif nm == "RangeInclusive" and len(i[4]) >= 2:
+            lo, hi = i[4][0], (mk_int(i[4][1][1] + 1, "usize") if i[4][1][0] == "int" else ("app", "Add", (i[4][1], mk_int(1, "usize"))))
         else:
             raise Unsupported("index by %s" % nm)
         lo = lo or mk_int(0, "usize")
@@ -664,16 +684,31 @@ def m_transpose(ci):
     return None
 
 
+def inline_closure(ci, f, args):
+    """('inline', ..) result running closure `f` as a frame of the calling evaluator (its result becomes the call's result): for
+    closures whose body does things the calling analysis must see in place (bus exchanges, writes), else None"""
+    ev = ci.ev
+    if f[0] != "closure" or f[1] not in ev.prog.fns or not ev.static_effects(f[1]):
+        return None
+    fn = ev.prog.fns[f[1]]
+    selfarg = f
+    if fn["body"]["locals"][1]["ty"]["k"] == "ref":
+        selfarg = ("ref", ("val", f, ()), False)
+    ev.stats["inlined"].add(fn["name"])
+    return ("inline", fn, [selfarg] + list(args))
+
+
 def m_and_then(ci):
     x, f = ci.args
     ev = ci.ev
     if x[0] == "adt":
         if x[3] == "Ok":
-            return apply_closure(ci, f, [x[4][0]], multi=lambda v: v)
+            return inline_closure(ci, f, [x[4][0]]) or apply_closure(ci, f, [x[4][0]], multi=lambda v: v)
         return x
     d = ("discr", x)
     erv = ("proj", ("proj", x, ("downcast", 1, "Err")), ("field", 0, "?"))
-    return ("fork", [([(d, 0)], lambda ci2: apply_closure(ci2, f, [("unwrap", x)], multi=lambda v: v)), ([(d, 1)], err(ev, erv))])
+    inl = inline_closure(ci, f, [("unwrap", x)])
+    return ("fork", [([(d, 0)], inl if inl is not None else (lambda ci2: apply_closure(ci2, f, [("unwrap", x)], multi=lambda v: v))), ([(d, 1)], err(ev, erv))])
 
 
 def m_bool_then(ci):
@@ -771,6 +806,10 @@ def closure_result(ci, f):
         fn = ev.prog.fns.get(f[1])
         if fn is not None:
             from mireval import Evaluator
+            why = ev.static_effects(f[1])
+            if why:
+                # only the closure's value is used here: anything else it does would be lost
+                raise Unsupported("the closure %s is evaluated for its value only, but has effects (%s)" % (f[1].split("::", 1)[-1], why))
             sub = Evaluator(ev.prog, ev.models, ev.log_on, {}, ev.no_inline)
             sub.fnrefs = ev.fnrefs
             st2 = ci.st.fork()
@@ -864,6 +903,22 @@ def m_into_iter(ci):
     return m_into_iter_value(ci, ci.args[0])
 
 
+def m_step_by(ci):
+    it, n = ci.args
+    if n[0] == "int" and n[1] >= 1 and it[0] == "adt" and it[1].endswith("ops::range::RangeFrom"):
+        return ("iter", "step_by", it, n)
+    return None
+
+
+def progression_of(t):
+    """(start, step) when the iterator `t` is the unbounded arithmetic progression start, start+step, …; else None"""
+    if t[0] == "adt" and t[1].endswith("ops::range::RangeFrom") and len(t[4]) == 1:
+        return (t[4][0], mk_int(1, term_type(t[4][0]) or "usize"))
+    if t[0] == "iter" and t[1] == "step_by" and t[2][0] == "adt" and t[2][1].endswith("ops::range::RangeFrom"):
+        return (t[2][4][0], t[3])
+    return None
+
+
 def m_into_iter_value(ci, x):
     if x[0] == "adt" and x[1] == "core::option::Option":
         # Option::into_iter: zero or one item
@@ -943,7 +998,14 @@ def m_iter_next(ci):
         return some(ev, cs[0])
     n = ci.st.aux.get("next_count", 0)
     site = ci.w.split(" ")[0]
+    by_value = False
+    if it[0] == "iter" and it[1] in ("copied", "cloned") and it[2][0] == "iter" and it[2][1] in ("slice", "array"):
+        # copied() / cloned() yield the same elements by value: the generic item is `*item(inner)`, with the inner iterator's count
+        it = it[2]
+        by_value = True
     item = ("item", it, site)
+    if by_value:
+        item = ("proj", item, ("deref",))
     extra = []
     src = it
     if it[0] == "iter" and it[1] == "flat_map":
@@ -959,6 +1021,25 @@ def m_iter_next(ci):
     if src[0] == "iter" and src[1] == "enumerate":
         item = ("tuple", (("item_index", src), ("item", src[2], site)))
     inner = src[2] if (src[0] == "iter" and src[1] == "enumerate") else src
+    if src[0] == "iter" and src[1] == "zip":
+        pa, pb = progression_of(src[2]), progression_of(src[3])
+        if (pa is None) == (pb is None):
+            return None
+        # zip with an unbounded progression start + k*step never ends on that side: it is the other side's items, the k-th one
+        # paired with start + k*step, k being the position enumerate() would report
+        other = src[3] if pa is not None else src[2]
+        start, step = pa or pb
+        ity = term_type(start) or (start[2] if start[0] == "int" else "usize")
+        idx = ("item_index", ("iter", "enumerate", other))
+        if step[0] == "int" and step[1] == 1:
+            off = idx
+        else:
+            off = ("app", "Mul", (idx, mk_int(step[1], ity)))
+        if not (start[0] == "int" and start[1] == 0):
+            off = ("app", "Add", (start, off))
+        xi = ("item", other, site)
+        item = ("tuple", (off, xi) if pa is not None else (xi, off))
+        inner = other
     if inner[0] == "iter" and inner[1] in ("chunks", "chunks_exact") and inner[3][0] == "int":
         # slice::chunks(n): every chunk has between 1 and n elements (core::slice::chunks docs)
         ch = ("item", inner, site)
@@ -1264,6 +1345,18 @@ def m_inspect(ci):
     return ("fork", [([(d, gv)], lambda ci2: run(ci2, ("unwrap", x))), ([(d, 1 - gv)], x)])
 
 
+def m_inspect_err(ci):
+    x, f = ci.args
+
+    def run(ci2, payload):
+        return apply_closure(ci2, f, [("ref", ("val", payload, ()), False)], multi=lambda v: x)
+    if x[0] == "adt":
+        return run(ci, x[4][0]) if x[3] == "Err" else x
+    d = ("discr", x)
+    erv = ("proj", ("proj", x, ("downcast", 1, "Err")), ("field", 0, "?"))
+    return ("fork", [([(d, 1)], lambda ci2: run(ci2, erv)), ([(d, 0)], x)])
+
+
 def m_opt_filter(ci):
     x, p = ci.args
     ev = ci.ev
@@ -1402,7 +1495,9 @@ def apply_closure(ci, f, args, multi=None):
         loaded = tuple(ev.load(ci.st, a[1]) if a[0] == "ref" else None for a in args)
         ci.st.emit(("call", fn["name"], tuple(args), rv, getattr(ci, "w", "?"), None, loaded))
         return multi(rv) if multi is not None else rv
-    sub = Evaluator(ev.prog, ev.models, ev.log_on, {}, ev.no_inline)
+    # the caller's hooks apply inside the closure too: a call the calling analysis must see in place (a bus exchange) ends the
+    # sub-run as a suspended path, which no model accepts, so the combinator becomes an unsupported construct instead of hiding it
+    sub = Evaluator(ev.prog, ev.models, ev.log_on, dict(ev.hooks), ev.no_inline)
     sub.fnrefs = ev.fnrefs
     st2 = ci.st.fork()
     st2.stack = []
@@ -1413,7 +1508,7 @@ def apply_closure(ci, f, args, multi=None):
         argv[0] = ("ref", ("val", f, ()), False)
     allp = sub.run_body(fn, body, argv, st=st2)
     paths = [p for p in allp if p.kind == "return"]
-    if multi is not None and allp and all(p.kind in ("return", "panic") for p in allp) and len(allp) > 1:
+    if multi is not None and allp and all(p.kind in ("return", "panic") for p in allp) and (len(allp) > 1 or allp[0].kind == "panic"):
         # a closure with several outcomes (e.g. `cond.then(|| self.receive())` where receive can fail): one
         # continuation per outcome, each adopting that outcome's state
         return ("multi", [(p.state, p.kind, (multi(sub.detach(p.state, p.value)) if p.kind == "return" else p.info)) for p in allp])
@@ -1502,6 +1597,15 @@ def m_ref_binop(ci):
     a = ci.deref(ci.args[0]) if (ci.args[0][0] == "ref" or ci.name.startswith("<&")) else ci.args[0]
     b = ci.deref(ci.args[1]) if ci.args[1][0] == "ref" else ci.args[1]
     return ci.ev.binop(ci.st, op, a, b, "u8")
+
+
+def m_ref_divrem(ci):
+    m = re.search(r"ops::arith::(\w+)<", ci.name)
+    a = ci.deref(ci.args[0]) if (ci.args[0][0] == "ref" or ci.name.startswith("<&")) else ci.args[0]
+    b = ci.deref(ci.args[1]) if ci.args[1][0] == "ref" else ci.args[1]
+    if not (b[0] == "int" and b[1] != 0):
+        return None
+    return ci.ev.binop(ci.st, m.group(1), a, b, "u8")
 
 
 def m_fill(ci):
